@@ -28,6 +28,8 @@ import GqlVerif.Proofs.C01NestedGenJ
 import GqlVerif.Proofs.C01NestedGenXW
 import GqlVerif.Proofs.C01NestedGenXJ
 import GqlVerif.Proofs.C01NestedRich
+import GqlVerif.Proofs.C01NestedBW
+import GqlVerif.Proofs.C01NestedBJ
 open GqlVerif.C01
 #print axioms accepts_mono
 #print axioms conforming_int_accepted
@@ -409,3 +411,29 @@ open GqlVerif.C01
 #print axioms GqlVerif.C01AF.af3_roundtrip
 #print axioms GqlVerif.C01N.Rich.rich1_hyps
 #print axioms GqlVerif.C01N.Rich.rich2_hyps
+-- NestedBOp: spreads of fragments on the abstract type itself next to nested spreads (Proofs/C01NestedB*.lean, P49)
+#print axioms GqlVerif.C01NB.nestedb_items_shape
+#print axioms GqlVerif.C01NB.nestedb_accepts
+#print axioms GqlVerif.C01NB.nestedb_lossless
+#print axioms GqlVerif.C01NB.nestedb_roundtrip
+#print axioms GqlVerif.C01NB.nestedBOp_of_nestedGen2Op
+#print axioms GqlVerif.C01NB.bodyItemsA_eq_X
+#print axioms GqlVerif.C01NB.conformsLooseA_eq_X_op
+#print axioms GqlVerif.C01NB.canonSelA_eq_X
+#print axioms GqlVerif.C01NB.nestedBKeysOk_eq_X
+#print axioms GqlVerif.C01NB.nestedBSideOk_eq_X
+#print axioms GqlVerif.C01NB.absTagOk_eq_X
+#print axioms GqlVerif.C01NB.nestedb_roundtrip_on_nestedGen2Op
+#print axioms GqlVerif.C01NB.nb_class
+#print axioms GqlVerif.C01NB.nb_not_X
+#print axioms GqlVerif.C01NB.nb_not_S
+#print axioms GqlVerif.C01NB.nb_items_shape
+#print axioms GqlVerif.C01NB.nb_accepts
+#print axioms GqlVerif.C01NB.nb_roundtrip_eval
+#print axioms GqlVerif.C01NB.nb_roundtrip_canon
+#print axioms GqlVerif.C01NB.nb_canon_value
+#print axioms GqlVerif.C01NB.nb_roundtrip_eval_cat
+#print axioms GqlVerif.C01NB.nb_disj
+#print axioms GqlVerif.C01NB.nestedb_b_overlap_needed
+#print axioms GqlVerif.C01NB.nestedb_rust_names_needed
+#print axioms GqlVerif.C01NB.nestedb_disj_not_needed
